@@ -325,6 +325,9 @@ class CutTable:
             self.pairs[sym.decl().name()] = (sym, z3.BitVecVal(self.env[sym.decl().name()], spec_term.size()))
         self.by_sig.setdefault(self.env[sym.decl().name()], []).append((label, spec_term, sym))
         self.symbols[label] = sym
+        if not hasattr(self, "defs_inc"):
+            self.defs_inc = {}
+        self.defs_inc[sym.decl().name()] = (sym, spec_term)
         return sym
 
     def differs(self, a, b, trials=3):
@@ -360,6 +363,7 @@ class CutTable:
         """a second defining term for an existing cut symbol (the caller has proved the two definitions equal)"""
         sig = self._sig(spec_term)
         self.by_sig.setdefault(sig, []).append((label, spec_term, sym))
+        self.has_alias = True
 
     def canon(self, t):
         if is_c(t):
@@ -377,7 +381,10 @@ class CutTable:
                 s.set("timeout", 60000)
                 # definitions of the cut symbols that occur on either side (each was itself proved where it was introduced)
                 names = free_vars(t) | free_vars(spec)
-                defs = {d_sym.decl().name(): (d_sym, d_spec) for lst in self.by_sig.values() for (_, d_spec, d_sym) in lst}
+                if getattr(self, "has_alias", False):
+                    defs = {d_sym.decl().name(): (d_sym, d_spec) for lst in self.by_sig.values() for (_, d_spec, d_sym) in lst}
+                else:
+                    defs = getattr(self, "defs_inc", {})     # maintained by register(): rebuilding it per proof is quadratic in the number of cuts
                 todo, done_ = [n for n in names if n in defs], set()
                 while todo:
                     n = todo.pop()
